@@ -97,3 +97,28 @@ def run(ctx):
                         e3 = np.linalg.norm(F.dense(Z3) - b) / np.linalg.norm(b)
                         ok2 = e3 <= 1e-5
                     ctx.check(ok2, 'svd_incomplete:reuse', what + ': a further reconstruction from the same sample arrays differs (data changed: %s)' % (not np.array_equal(y, y_keep)), case=row)
+    # many modes (the number of tensor elements is far above 2^63: any bookkeeping of sizes must not go through fixed-width
+    # integers); recovery is judged on the sample itself and on random entries through TT evaluation
+    for n_ in ([4] * 40, [10] * 25, [5, 4, 6] * 14) if quick else ([4] * 40, [10] * 25, [5, 4, 6] * 14, [3] * 70, [2] * 90, [7, 3] * 30):
+        for rho_, m_ in ((2, 2), (2, 3)):
+            d_ = len(n_)
+            if min(n_) < m_:
+                continue
+            prof = [1] + [rho_] * (d_ - 1) + [1]
+            T = [G / np.sqrt(G.shape[1]) for G in target(rng, n_, prof, 0)]
+            seed = int(rng.integers(1 << 30))
+            I, idx, idxm = teneva.sample_tt(n_, m_, seed=seed)
+            y = teneva.get_many(T, I)
+            what = 'svd_incomplete(n=[..%d modes..] %s, target rank %d, m=%d, seed %d)' % (d_, n_[:3], rho_, m_, seed)
+            ctx.case(key=('many-modes', tuple(n_), rho_, m_), nontrivial=True)
+            try:
+                Z = teneva.svd_incomplete(I, y, idx, idxm, 0., m_)
+            except Exception as ex:
+                ctx.violation('svd_incomplete:raises', '%s raised %s: %s' % (what, type(ex).__name__, ex))
+                continue
+            if not ctx.check(F.is_wellformed(Z, n_), 'svd_incomplete:wellformed', what + ': not a well-formed finite TT-tensor of the target shape'):
+                continue
+            J = np.vstack([I, np.stack([rng.integers(0, k, size=400) for k in n_], axis=1)])
+            zt, tt_ = np.asarray(teneva.get_many(Z, J)), np.asarray(teneva.get_many(T, J))
+            err = np.abs(zt - tt_).max() / np.abs(tt_).max()
+            ctx.check(err <= 1e-5 and max(G.shape[2] for G in Z) <= m_, 'svd_incomplete:recovery', what + ': relative error %.2e on the sample and on 400 random entries (ranks %s)' % (err, sorted(set(G.shape[2] for G in Z[:-1]))))
